@@ -128,7 +128,16 @@ func runSCTP(id int, c *sctpCase, mode string, dp *dict.Parser) sctpLine {
 					mw.SetWriterStream(uint(m.MessageStream()) + 2)
 				}
 			}
-			m.Answer(rc).WriteTo(dc)
+			if mw, ok := dc.(diam.MultistreamWriter); ok && k == 1 {
+				// the first request of a stream is answered through the Write adaptor with no writer stream
+				// set: the adaptor writes to the stream being read, which is the request's (synchronous handler)
+				mw.ResetWriterStream()
+				if b, err := m.Answer(rc).Serialize(); err == nil {
+					dc.Write(b)
+				}
+			} else {
+				m.Answer(rc).WriteTo(dc)
+			}
 		}
 		got <- struct{}{}
 	})
